@@ -55,6 +55,10 @@ static delta_encoder_t *mk_encoder(void) {
   __CPROVER_assume(buf != NULL);
   enc->data = buf;
   enc->capacity = cap;
+  /* the only values the contract admits (delta_encoder_init sets exactly these); concrete here so that the
+   * mini-block size 128/4 is a literal for the solver */
+  enc->block_size = 128;
+  enc->mini_blocks_per_block = 4;
   return enc;
 }
 
